@@ -352,6 +352,117 @@ pub fn generate(kind: &str, thorough: bool, seed: u64, corpus: &str, out: &mut O
                 for t in random_docs(&si, &mut rng, 100 * scale, 5) { crate::valcases::rules_case(&si, &t, &rules, &tmp, out); }
             }
         }
+        "c07" => {
+            let tmp = tmpdir();
+            let rules = ["UniqueVariableNames", "VariablesAreInputTypes", "NoUndefinedVariables", "NoUnusedVariables", "VariablesInAllowedPosition"];
+            // ---- (variable type, location type, variable default, location default) tuples
+            #[derive(Clone, PartialEq)]
+            enum T { Named(&'static str), List(Box<T>), NonNull(Box<T>) }
+            fn show(t: &T) -> String { match t { T::Named(n) => n.to_string(), T::List(i) => format!("[{}]", show(i)), T::NonNull(i) => format!("{}!", show(i)) } }
+            fn build(base: &'static str, shape: &str) -> T {
+                match shape.chars().next() { None => T::Named(base), Some('L') => T::List(Box::new(build(base, &shape[1..]))), Some(_) => T::NonNull(Box::new(build(base, &shape[1..]))) }
+            }
+            // the spec's AreTypesCompatible / IsVariableUsageAllowed (input types: no abstract types)
+            fn compat(v: &T, l: &T) -> bool {
+                match (v, l) {
+                    (T::NonNull(vi), T::NonNull(li)) => compat(vi, li),
+                    (_, T::NonNull(_)) => false,
+                    (T::NonNull(vi), _) => compat(vi, l),
+                    (T::List(vi), T::List(li)) => compat(vi, li),
+                    (T::List(_), _) | (_, T::List(_)) => false,
+                    (T::Named(a), T::Named(b)) => a == b,
+                }
+            }
+            fn allowed(v: &T, l: &T, non_null_default: bool, loc_default: bool) -> bool {
+                if let (T::NonNull(li), false) = (l, matches!(v, T::NonNull(_))) {
+                    (non_null_default || loc_default) && compat(v, li)
+                } else { compat(v, l) }
+            }
+            fn literal(t: &T) -> String {
+                match t { T::NonNull(i) => literal(i), T::List(i) => format!("[{}]", literal(i)),
+                    T::Named("Int") => "1".into(), T::Named("String") => "\"s\"".into(), T::Named("Color") => "RED".into(), T::Named(_) => "{req: 1}".into() }
+            }
+            let bases = ["Int", "String", "In", "Color"];
+            let shapes = ["", "N", "L", "LN", "NL", "NLN", "LL"];
+            let mut tys: Vec<T> = vec![];
+            for b in bases.iter() { for sh in shapes.iter() { tys.push(build(b, sh)); } }
+            let mut args = vec![]; let mut boxes = String::new();
+            for (k, t) in tys.iter().enumerate() {
+                args.push(format!("a{}: {}", k, show(t)));
+                args.push(format!("d{}: {} = {}", k, show(t), literal(t)));
+                args.push(format!("l{}: [{}]", k, show(t)));
+                args.push(format!("box{}: Box{}", k, k));
+                args.push(format!("dbox{}: DBox{}", k, k));
+                boxes.push_str(&format!("input Box{} {{ v: {} }}\ninput DBox{} {{ v: {} = {} }}\n", k, show(t), k, show(t), literal(t)));
+            }
+            let sdl = format!("{}\nenum Color {{ RED GREEN }}\ninput In {{ req: Int!  opt: String  nest: In }}\n{}\ntype Query {{ f({}): Int  w: W  plain(i: Int, s: String, l: [Int], inp: In): Int }}\ntype W {{ g({}): Int  w: W }}\ninterface Node {{ id: ID }}\nunion U = W | Query\nscalar Custom\ndirective @d({}) on FIELD | QUERY | FRAGMENT_SPREAD | INLINE_FRAGMENT\n",
+                schemas::PRELUDE, boxes, args.join(", "), args.join(", "), args.join(", "));
+            let si = gen::SchemaInfo::new("vars", &sdl);
+            out.schema(&si);
+            let mut i = 0usize;
+            for (kv, vt) in tys.iter().enumerate() {
+                for (kl, lt) in tys.iter().enumerate() {
+                    for dflt in 0..3usize {
+                        let (dtext, nn) = match dflt { 0 => (String::new(), false), 1 => (" = null".to_string(), false), _ => (format!(" = {}", literal(vt)), true) };
+                        if dflt == 1 && matches!(vt, T::NonNull(_)) { continue; }
+                        for loc_default in [false, true] {
+                            // usage sites; (text of the selection using $x, expected location type, location declares a default)
+                            let pre = if loc_default { "d" } else { "a" };
+                            let sites: Vec<(String, T, bool)> = vec![
+                                (format!("f({}{}: $x)", pre, kl), lt.clone(), loc_default),
+                                (format!("f @d({}{}: $x)", pre, kl), lt.clone(), loc_default),
+                                (format!("w {{ w {{ g({}{}: $x) }} }}", pre, kl), lt.clone(), loc_default),
+                                (format!("f(l{}: [$x])", kl), lt.clone(), false),
+                                (format!("f({}box{}: {{v: $x}})", if loc_default { "d" } else { "" }, kl), lt.clone(), loc_default),
+                                (format!("...F"), lt.clone(), loc_default),
+                            ];
+                            for (p, (site, l, ld)) in sites.iter().enumerate() {
+                                if !(thorough || p == i % sites.len()) { continue; }
+                                let frag = if site == "...F" { format!(" fragment F on Query {{ ... on Query {{ f({}{}: $x) }} }}", pre, kl) } else { String::new() };
+                                let doc = format!("query ($x: {}{}) {{ {} }}{}", show(vt), dtext, site, frag);
+                                let spec = allowed(vt, l, nn, *ld);
+                                let spec_no_loc = allowed(vt, l, nn, false);
+                                crate::valcases::rules_case_meta(&si, &doc, &rules, &tmp,
+                                    json!({"vip_allowed": spec, "vip_allowed_ignoring_location_default": spec_no_loc, "loc_default": ld, "var": show(vt), "loc": show(l), "kv": kv}), out);
+                            }
+                            i += 1;
+                        }
+                    }
+                }
+            }
+            // ---- definitions and uses across operations and fragments
+            let defs = |m: usize| -> String {
+                let v: Vec<&str> = [(1, "$x: Int"), (2, "$y: Int")].iter().filter(|(b, _)| m & b != 0).map(|(_, t)| *t).collect();
+                if v.is_empty() { String::new() } else { format!("({})", v.join(", ")) }
+            };
+            let uses = |m: usize| -> String { format!("plain{}", match m { 0 => "", 1 => "(i: $x)", 2 => "(l: [1, $y])", _ => "(i: $x, inp: {req: 1, nest: {req: $y}})" }) };
+            let spreads = |m: usize| -> String { format!("{}{}", if m & 1 != 0 { " ...F" } else { "" }, if m & 2 != 0 { " w { ... on W { ...G } }" } else { "" }) };
+            let op2s = ["", " query B { plain }", " query B($x: Int) { ...F }", " query A { plain(i: $x) }", " query A($x: Int, $y: Int) { plain }", " { plain(i: $y) }", " query B($y: Int) { w { ...G } plain @skip(if: $y) }"];
+            for d in 0..4usize { for u in 0..4usize { for sp in 0..4usize { for (k2, op2) in op2s.iter().enumerate() { for fv in 0..2usize {
+                if !thorough && (d + u + sp + k2 + fv) % 2 == 1 { continue; }
+                let f = if fv == 0 { "fragment F on Query { w { g(a0: $x) } }" } else { "fragment F on Query { plain(i: $x) w { ...G } }" };
+                let doc = format!("query A{} {{ {}{} }}{} {} fragment G on W {{ g(l0: [$y]) }} fragment H on Query {{ plain(i: $z) }}", defs(d), uses(u), spreads(sp), op2, f);
+                crate::valcases::rules_case(&si, &doc, &rules, &tmp, out);
+            } } } } }
+            // ---- duplicate variable names
+            for len in 1..=3usize { for code in 0..(1usize << len) { for second in 0..3usize {
+                let vs: Vec<String> = (0..len).map(|k| format!("${}: {}", if code >> k & 1 == 1 { "x" } else { "y" }, if k % 2 == 0 { "Int" } else { "String" })).collect();
+                let op2 = match second { 0 => "", 1 => " query B($x: Int, $y: Int) { plain(i: $x, l: [$y]) }", _ => " query B($x: Int, $x: Int) { plain(i: $x) }" };
+                crate::valcases::rules_case(&si, &format!("query A({}) {{ plain(i: $x, l: [$y]) }}{}", vs.join(", "), op2), &rules, &tmp, out);
+            } } }
+            // ---- variable types of every kind
+            for n in ["Int", "Custom", "Color", "In", "Query", "W", "Node", "U", "Unknown", "__Type", "Box0"] {
+                for w in ["{}", "{}!", "[{}]", "[{}!]!", "[[{}]]"] {
+                    crate::valcases::rules_case(&si, &format!("query ($v: {}) {{ plain }}", w.replace("{}", n)), &rules, &tmp, out);
+                    crate::valcases::rules_case(&si, &format!("query ($v: {}, $u: Int) {{ plain(i: $u) }} query B($w: {}) {{ plain }}", w.replace("{}", n), w.replace("{}", n)), &rules, &tmp, out);
+                }
+            }
+            for si in pool() {
+                out.schema(&si);
+                for t in corpus_docs(corpus, &si.name) { crate::valcases::rules_case(&si, &t, &rules, &tmp, out); }
+                for t in random_docs(&si, &mut rng, 150 * scale, 5) { crate::valcases::rules_case(&si, &t, &rules, &tmp, out); }
+            }
+        }
         "c08" => {
             let tmp = tmpdir();
             let rules = ["ValuesOfCorrectType"];
